@@ -634,7 +634,18 @@ impl GameEnv {
             "otherkey" => Message::new(hpt).sign(&mut rng, &self.world.other_kp),
             _ => info.token,
         };
-        let token_ok = token.verify(&pk, &Message::new(hpt));
+        // "smallorder": the blinded token inside the proof is overwritten (before the challenge) by sigma1 = the
+        // order-3 point (0, 2) of E(Fp) - not the identity, not in G1 - and sigma2 = identity: a TAMPERED token
+        let smallorder = st["token"].as_str() == Some("smallorder");
+        let token_ok = token.verify(&pk, &Message::new(hpt)) && !smallorder;
+        let tamper_pt = |mut b: Vec<u8>| -> Vec<u8> {
+            if smallorder {
+                for x in b[..96].iter_mut() { *x = 0; }
+                b[0] = 0x80;
+                b[48] = 0xc0;
+            }
+            b
+        };
         // range values: by default the hidden new balances when they are in range, else 0
         let rv = |key: &str, hidden: &Scalar| -> i64 {
             match st[key].as_i64() {
@@ -727,14 +738,18 @@ impl GameEnv {
         let _ = take_challenge_log();
         let ser = |v: &dyn erased::Ser| v.ser();
         let draft = assemble(&s_nonce, &s_tag,
-            &ser(&ptb.clone().generate_proof_response(dummy)), &ser(&rlb.clone().generate_proof_response(dummy)),
+            &tamper_pt(ser(&ptb.clone().generate_proof_response(dummy))), &ser(&rlb.clone().generate_proof_response(dummy)),
             &ser(&stb.clone().generate_proof_response(dummy)), &ser(&clb.clone().generate_proof_response(dummy)),
             &custom_cb.as_ref().map(|c| c.respond(dummy)).unwrap_or_else(|| ser(&crb2.generate_constraint_response(dummy))),
             &custom_mb.as_ref().map(|c| c.respond(dummy)).unwrap_or_else(|| ser(&mrb2.generate_constraint_response(dummy))));
         let (_, ch0) = submit(&draft, &mut rng);
         let (tr0, c0) = match ch0 {
             Some(x) => x,
-            None => return json!({"ev": "game", "proof": "pay", "id": st["id"], "error": "draft not decodable"}),
+            // the proof is refused by the decoder (an element outside its group): a rejection without any relation
+            // being evaluated
+            None => return json!({"ev": "game", "proof": "pay", "id": st["id"], "strategy": st["name"], "accepted": false,
+                                  "atoms": {"proof_decodes": false}, "truth": false, "token_ok": token_ok, "resp_ok": true, "digits_ok": digits_ok,
+                                  "sigs": {}, "challenge_changed_after_late_choice": false, "clusters": st["clusters"]}),
         };
         let chal0 = challenge_from_transcript(&tr0);
         assert_eq!(chal0.to_scalar(), c0);
@@ -751,7 +766,7 @@ impl GameEnv {
         let z_rl = *p_rl.conjunction_response_scalars();
         let mut z_st = *p_st.conjunction_response_scalars();
         let mut z_cl = *p_cl.conjunction_response_scalars();
-        let b_pt = ser(&p_pt);
+        let b_pt = tamper_pt(ser(&p_pt));
         let mut b_rl = ser(&p_rl);
         let mut b_st = ser(&p_st);
         let mut b_cl = ser(&p_cl);
